@@ -1831,7 +1831,21 @@ def _finish_flow(
     event = flow_state.finished_event(matching_scores)
     _push_internal_event(state, event)
 
-    _log_action_or_intents(state, flow_state, matching_scores)
+    try:
+        _log_action_or_intents(state, flow_state, matching_scores)
+    except Exception as e:
+        # The expression in a meta tag of the flow could not be evaluated. The flow has
+        # finished, only its intent/action log event is missing.
+        log.warning(
+            "Flow '%s': meta tag could not be evaluated: %s", flow_state.flow_id, e
+        )
+        _push_internal_event(
+            state,
+            Event(
+                name="ColangError",
+                arguments={"type": str(type(e).__name__), "error": str(e)},
+            ),
+        )
 
     log.info(
         "Flow finished: '%s' context=%s",
